@@ -64,10 +64,11 @@ type Gen struct {
 	Uses    map[string]int
 	noYield int
 	inCo    int
+	frozen  map[string]int // sequences being iterated: not to be resized
 }
 
 func NewGen(r *lib.Rand, f Features) *Gen {
-	return &Gen{R: r, F: f, Uses: map[string]int{}}
+	return &Gen{R: r, F: f, Uses: map[string]int{}, frozen: map[string]int{}}
 }
 
 func (g *Gen) use(s string) { g.Uses[s]++ }
@@ -322,6 +323,20 @@ func (g *Gen) exprBool(d int) Expr {
 	default:
 		return &Bin{Op: "==", A: call("type", g.exprAny(d-1)), B: str([]string{"number", "string", "nil", "table", "boolean", "function"}[g.R.Intn(6)])}
 	}
+}
+
+// pickSeqMutable: a sequence variable that is not being iterated right now.
+func (g *Gen) pickSeqMutable() *varInfo {
+	var c []*varInfo
+	for _, v := range g.vars(TSeq) {
+		if g.frozen[v.Name] == 0 {
+			c = append(c, v)
+		}
+	}
+	if len(c) == 0 {
+		return nil
+	}
+	return c[g.R.Intn(len(c))]
 }
 
 func (g *Gen) exprSeqOpt() Expr {
@@ -753,7 +768,7 @@ func (g *Gen) assign(d int) []Stmt {
 		}
 		return g.newLocal(TRec, d)
 	default:
-		if s := g.pickVar(TSeq); s != nil && g.F.Tables > 0 {
+		if s := g.pickSeqMutable(); s != nil && g.F.Tables > 0 {
 			g.use("assign-append")
 			// append at #s+1 keeps it a sequence
 			return []Stmt{&Assign{LHS: []Expr{&Index{E: g.ref(s), K: &Bin{Op: "+", A: &Un{Op: "#", A: g.ref(s)}, B: num(1)}}}, Es: []Expr{g.exprInt(d)}}}
@@ -787,7 +802,7 @@ func (g *Gen) multiAssign(d int) []Stmt {
 		g.use("multiassign-rotate-expr")
 		return []Stmt{&Assign{LHS: []Expr{g.ref(a), g.ref(b)}, Es: []Expr{&Bin{Op: "+", A: g.ref(b), B: num(1)}, &Bin{Op: "*", A: g.ref(a), B: num(2)}}}, emit(g.ref(a), g.ref(b))}
 	case 2:
-		if s := g.pickVar(TSeq); s != nil {
+		if s := g.pickSeqMutable(); s != nil {
 			g.use("multiassign-index-and-var")
 			// i, t[i] = i+1, v  : the key uses the old i
 			tmp := g.fresh("i")
@@ -817,9 +832,13 @@ func (g *Gen) multiAssign(d int) []Stmt {
 }
 
 func (g *Gen) tableOp(d int) []Stmt {
-	s := g.pickVar(TSeq)
+	s := g.pickSeqMutable()
 	if s == nil {
-		return g.newLocal(TSeq, d)
+		if s = g.pickVar(TSeq); s == nil {
+			return g.newLocal(TSeq, d)
+		}
+		g.use("index-read")
+		return []Stmt{emit(&Index{E: g.ref(s), K: g.smallInt(0)}, &Un{Op: "#", A: g.ref(s)})}
 	}
 	switch g.R.Pick(25, 20, 15, 20, 20) {
 	case 0:
@@ -935,9 +954,11 @@ func (g *Gen) genFor(depth, d int) []Stmt {
 		i, v := g.fresh("i"), g.fresh("e")
 		g.push()
 		g.loops++
+		g.frozen[s.Name]++
 		g.declare(&varInfo{Name: i, Ty: TInt})
 		g.declare(&varInfo{Name: v, Ty: TInt})
 		body := g.stmts(g.R.Range(1, 3), depth+1, false)
+		g.frozen[s.Name]--
 		g.loops--
 		g.pop()
 		return []Stmt{&GenFor{Xs: []string{i, v}, Es: []Expr{call("ipairs", g.ref(s))}, Body: body}}
